@@ -147,6 +147,13 @@ func Run(seed int64, n int, outDir string) error {
 		}
 	}
 
+	addQuery := func(q queryResult) {
+		cf.Add(q.Term)
+		st.Info(q.Info)
+		st.Evaluations++
+		st.Count("query")
+	}
+
 	// 1. corpus (regression witnesses of the repaired defects) on the 4-validator world
 	for _, c := range corpus(worlds[0]) {
 		res := worlds[0].directCase(c.setup, c.items)
@@ -189,6 +196,10 @@ func Run(seed int64, n int, outDir string) error {
 			st.Count("submission")
 		}
 		rh.subs = nil
+		for _, q := range rh.queries {
+			addQuery(q)
+		}
+		rh.queries = nil
 	}
 	for k, v := range rh.msgHist {
 		st.Hist[k] += v
@@ -216,6 +227,9 @@ func Run(seed int64, n int, outDir string) error {
 		w := worlds[r.Intn(len(worlds))]
 		res, _, _, _, _ := genDirect(r, w)
 		addBlock(res, "direct", false)
+		for _, q := range res.Query {
+			addQuery(q)
+		}
 	}
 
 	if _, err := cf.Write(outDir, "cases", 200); err != nil {
